@@ -319,8 +319,13 @@ class RegexCompiler:
         can_be_empty = self._needs_advance_check(body)
 
         for _ in range(node.min):
+            start = self._current_offset()
             self._emit_capture_reset(capture_groups)
             self._compile_node(body)
+            if self._current_offset() == start:
+                # A body that emits nothing, as in (?:){100000000}: repeating it changes
+                # nothing (any other body overflows MAX_INSTRUCTIONS soon enough)
+                break
 
         if node.max == -1:
             self._compile_star(body, greedy, can_be_empty)
